@@ -175,6 +175,7 @@ def raw_case(rep, model, seed, n, ch, frames, domain, expect):
     verdict = None
     rx.step(ops[0])
     qlen = 0
+    arrived = []
     for k, f in enumerate(frames):
         rx.world.transfers, rx.world.watchdog = 0, 20000
         op = ("receive", f)
@@ -194,11 +195,22 @@ def raw_case(rep, model, seed, n, ch, frames, domain, expect):
                 verdict = ("C19/valid-packet-not-queued", bytes(f).hex())
             elif expect(k) is False and new != qlen:
                 verdict = ("C19/inconsistent-packet-queued", bytes(f).hex())
+        if new == qlen + 1:
+            arrived.append(bytes(f))
         qlen = new
-    # drain: arrival order, each once
-    for _ in range(qlen + 1):
+    # drain: arrival order, each once (elements are told apart by re-decoding the payload they came from)
+    for k in range(qlen + 1):
         ops.append(("read",))
-        rx.step(("read",))
+        res = rx.step(("read",))
+        if verdict is None:
+            if k < len(arrived):
+                want = REF.decode(arrived[k], ch)
+                e = rx.last_elem
+                if res[:2] != [0, 1] or bytes(e.mac) != want["adva"][:6].ljust(6, b"\0")[:len(e.mac)] and want["length"] >= 6:
+                    verdict = ("C19/read-out-of-arrival-order", "read() number %d returned %s, the packet that arrived %d-th is from %s" % (
+                        k + 1, None if res[:2] != [0, 1] else bytes(e.mac).hex(), k + 1, want["adva"].hex()))
+            elif res != [0, 0]:
+                verdict = ("C19/element-returned-twice", "read() number %d after %d arrivals = %s" % (k + 1, len(arrived), res))
     iout, mout = rx.finish()
     case = {"seed": seed, "rf_ch": ch, "frames": [bytes(f).hex() for f in frames[:40]], "n_frames": len(frames)}
     rep.seen(case)
